@@ -690,6 +690,7 @@ fn analyse_key(
     let kname = show(key);
     // ---- 1. transitions and their legality
     let mut prev: Option<KState> = None;
+    #[derive(Clone)]
     struct Install {
         at: u64,
         wall: u64,
@@ -865,6 +866,7 @@ fn analyse_key(
         }
         Ok(values)
     };
+    type Solution = (Vec<Option<usize>>, Vec<Option<Vec<u8>>>);
     #[allow(clippy::too_many_arguments)]
     fn assign(
         si: usize,
@@ -875,69 +877,74 @@ fn analyse_key(
         owner: &mut Vec<Option<usize>>,
         budget: &mut u32,
         first_error: &mut Option<(String, String)>,
-    ) -> Option<Vec<Option<Vec<u8>>>> {
+        solutions: &mut Vec<Solution>,
+    ) {
         if si == successful.len() {
-            return match verify(owner) {
-                Ok(values) => Some(values),
+            match verify(owner) {
+                Ok(values) => solutions.push((owner.clone(), values)),
                 Err(e) => {
                     if first_error.is_none() {
                         *first_error = Some(e);
                     }
-                    None
                 }
-            };
+            }
+            return;
         }
         if *budget == 0 {
-            return None;
+            return;
         }
         *budget -= 1;
         let op = successful[si];
         for ii in 0..installs_len {
             if owner[ii].is_none() && cand(ii, op) {
                 owner[ii] = Some(op);
-                if let Some(v) = assign(si + 1, successful, installs_len, cand, verify, owner, budget, first_error) {
-                    return Some(v);
-                }
+                assign(si + 1, successful, installs_len, cand, verify, owner, budget, first_error, solutions);
                 owner[ii] = None;
-                if *budget == 0 {
-                    return None;
+                if *budget == 0 || solutions.len() >= 24 {
+                    return;
                 }
             }
         }
-        None
     }
     let cand = |ii: usize, op: usize| candidate(&installs[ii], ops[op]);
     let mut owner: Vec<Option<usize>> = vec![None; n];
     let mut budget = 20_000u32;
     let mut first_error = None;
-    let state_values: Vec<Option<Vec<u8>>> = match assign(0, &successful, n, &cand, &verify, &mut owner, &mut budget, &mut first_error) {
-        Some(v) => v,
-        None => {
-            if budget == 0 {
-                report.count("attribution_budget_exhausted", 1);
-                return Ok(());
-            }
-            if let Some(e) = first_error {
-                return Err(e);
-            }
-            for &op in &successful {
-                if !(0..n).any(|ii| cand(ii, op)) {
-                    let r = ops[op];
-                    return Err((
-                        "accepted-modification-has-no-effect".into(),
-                        format!(
-                            "key {kname}: client {} {} returned {} (events {}..{}) but no generation it could have installed was ever current in that interval; installed sequence: {}",
-                            r.client, r.call.brief(), r.res.brief(), r.invoke, r.ret, describe(samples)
-                        ),
-                    ));
-                }
-            }
-            return Err((
-                "accepted-modifications-not-attributable".into(),
-                format!("key {kname}: the successful modifications cannot be matched one-to-one to the installed generations {}", describe(samples)),
-            ));
+    // Every complete matching that satisfies the per-install rules is kept: where generations
+    // cannot be told apart (8-byte counters, equal event stamps) the calls are judged against
+    // each of them and the history is accepted if one of them explains everything.
+    let mut solutions: Vec<Solution> = Vec::new();
+    assign(0, &successful, n, &cand, &verify, &mut owner, &mut budget, &mut first_error, &mut solutions);
+    if solutions.is_empty() {
+        if budget == 0 {
+            report.count("attribution_budget_exhausted", 1);
+            return Ok(());
         }
-    };
+        if let Some(e) = first_error {
+            return Err(e);
+        }
+        for &op in &successful {
+            if !(0..n).any(|ii| cand(ii, op)) {
+                let r = ops[op];
+                return Err((
+                    "accepted-modification-has-no-effect".into(),
+                    format!(
+                        "key {kname}: client {} {} returned {} (events {}..{}) but no generation it could have installed was ever current in that interval; installed sequence: {}",
+                        r.client, r.call.brief(), r.res.brief(), r.invoke, r.ret, describe(samples)
+                    ),
+                ));
+            }
+        }
+        return Err((
+            "accepted-modifications-not-attributable".into(),
+            format!("key {kname}: the successful modifications cannot be matched one-to-one to the installed generations {}", describe(samples)),
+        ));
+    }
+    if solutions.len() > 1 {
+        report.count("ambiguous_attributions", 1);
+    }
+    let mut judge = |owner: &Vec<Option<usize>>, state_values: &Vec<Option<Vec<u8>>>, report: &mut BodyReport| -> Result<(), (String, String)> {
+    let mut installs = installs.clone();
     for ii in 0..n {
         installs[ii].owner = owner[ii];
         installs[ii].value = state_values[ii].clone();
@@ -1093,6 +1100,19 @@ fn analyse_key(
         // a refused call must not have installed anything: covered by attribution (step 3)
     }
     Ok(())
+    };
+    let mut first_fail: Option<(String, String)> = None;
+    for (owner, state_values) in &solutions {
+        match judge(owner, state_values, report) {
+            Ok(()) => return Ok(()),
+            Err(e) => {
+                if first_fail.is_none() {
+                    first_fail = Some(e);
+                }
+            }
+        }
+    }
+    Err(first_fail.unwrap())
 }
 
 fn describe(samples: &[Sample]) -> String {
